@@ -115,6 +115,9 @@ pub struct GenCfg {
     /// allow answers that are errors / deferred
     pub hole_errors: bool,
     pub hole_deferred: bool,
+    /// deferred answers may be rejections (the Rust host rejects with a string, the C API can
+    /// only reject with an Error object: driver comparisons switch this off)
+    pub hole_defer_reject: bool,
     pub f_class: bool,
     pub f_gen: bool,
     pub f_proxy: bool,
@@ -151,6 +154,7 @@ impl GenCfg {
             holes,
             hole_errors: true,
             hole_deferred: true,
+            hole_defer_reject: true,
             f_class: on(0.7),
             f_gen: on(0.7),
             f_proxy: on(0.4),
@@ -402,7 +406,7 @@ impl<'a> Gen<'a> {
             Answer::Error(format!("E{}", k))
         } else if self.cfg.hole_deferred && r < 40 {
             Answer::DeferValue(json!(k * 10 + 1))
-        } else if self.cfg.hole_deferred && self.cfg.hole_errors && r < 47 && self.awaited_hole {
+        } else if self.cfg.hole_deferred && self.cfg.hole_errors && self.cfg.hole_defer_reject && r < 47 && self.awaited_hole {
             // (a deferred rejection is only equivalent to the stub's throw when the hole is
             // awaited on the spot; a kept promise that is rejected later is not)
             Answer::DeferReject(format!("R{}", k))
